@@ -4,3 +4,4 @@ pub mod gen;
 pub mod model;
 pub mod re;
 pub mod spec;
+pub mod syntax;
